@@ -138,9 +138,10 @@ def gen_api_history(seed, nops=30, malformed=0.25, with_io=None, caller_mut=0.0,
         for _ in range(r.choice([0, 0, 1, 2, 3] if not big else [6, 12])):
             n = g.simple_name(b"C")
             if n not in S.chs: S.chs.append(n); L.append("analog " + xhex(n))
-        if r.random() < 0.95: set_prate(r.choice([50.0, 100.0, 120.0, 10.0, 2.5, 1.5, 12.5]))     # fractional rates: the sub-frame count is a float quotient
+        if r.random() < 0.95: set_prate(r.choice([50.0, 100.0, 120.0, 10.0, 2.5, 1.5, 12.5, 0.5, 0.25]))     # fractional rates: the sub-frame count is a float quotient; rates below 1 Hz truncate to 0 but are not 0
         if S.prate and r.random() < 0.9:
-            nsub = r.choice([1, 1, 2, 3, 5, 4] + ([80] if S.prate == 12.5 else [])); set_arate(S.prate * nsub)
+            # below 1 Hz the library takes ONE sub-frame per frame whatever the ratio (static_cast<size_t>(rate) == 0): keep the histories valid
+            nsub = 1 if S.prate < 1.0 else r.choice([1, 1, 2, 3, 5, 4] + ([80] if S.prate == 12.5 else [])); set_arate(S.prate * nsub)
     for _ in range(nops):
         c = r.random()
         bad = r.random() < malformed
